@@ -25,6 +25,7 @@ import PGProofs.BridgeBC
 import PGProofs.MomentsThm
 import PGProofs.RewardsThm
 import PGProofs.EndToEnd2
+import PGProofs.EndToEnd3
 
 set_option linter.all false
 set_option pp.fieldNotation.generalized false
@@ -86,6 +87,12 @@ theorem end_to_end_sfs : ∀ {D n : ℕ} [inst : NeZero n] {K : Type} [inst_1 : 
 /-- specialised to the unfolded spectrum -/
 theorem end_to_end_sfs_unfolded : ∀ {D n : ℕ} [inst : NeZero n] {K : Type} [inst_1 : Field K] [inst_2 : LinearOrder K] [inst_3 : IsStrictOrderedRing K] {m : Model} {cinit : Fin D × Fin n → ℕ} {ts : ℕ → Fin D → ℚ} {mig : ℕ → Fin D → Fin D → ℚ} {r : ℕ → ℚ} {fuel : ℕ → ℕ} {G : ℕ → Graph}, 2 ≤ n → massBC cinit ≤ n → (∀ (e : ℕ), bfs (transit m (mkEpoch (ts e) (mig e) (r e))) (encBC cinit) (fuel e) = some (G e)) → ∀ (L : ExpLaw K) (nv : Fin D → ℕ), ∑ d, nv d = massBC cinit → ∀ (x0 : Assembly.LabS encBC (G 0).visited n), cntF (Assembly.LabP.val x0) = Assembly.sampleBC nv → ∀ (eps : List EpochT) (dr : Reward) (sd tm : ℚ) (c : Api.MomentCall Reward), 1 ≤ c.k → (∀ (rs : List Reward), c.rewards = some rs → ↑(List.length rs) = c.k) → 0 ≤ Api.resolveTime Api.Variant.current c.endTime tm → EndToEnd.sfsMomentCallK Api.Variant.current (EndToEnd.codeCtx L G n nv eps dr sd tm) n (EndToEnd.unfoldedIndices n) Reward.unfoldedSFS c = Except.ok (EndToEnd.padSFSK n (List.map (fun i ↦ if 0 < Api.resolveTime Api.Variant.current c.startTime sd then EndToEnd.labAccBC L m ts mig G n x0 eps Reward.unfoldedSFS (EndToEnd.resolveRewardsK dr c.k c.rewards) c.center c.permute i (Api.resolveTime Api.Variant.current c.endTime tm) - EndToEnd.labAccBC L m ts mig G n x0 eps Reward.unfoldedSFS (EndToEnd.resolveRewardsK dr c.k c.rewards) c.center c.permute i (Api.resolveTime Api.Variant.current c.startTime sd) else EndToEnd.labAccBC L m ts mig G n x0 eps Reward.unfoldedSFS (EndToEnd.resolveRewardsK dr c.k c.rewards) c.center c.permute i (Api.resolveTime Api.Variant.current c.endTime tm)) (EndToEnd.unfoldedIndices n))) := @PG.EndToEnd.unfolded_sfs_moment_call_eq_labelled
 
+/-- CAPSTONE: the (n+1) x |times| matrix SFSDistribution.accumulate returns (zero row, one row per bin, zero padding; any list of non-negative times) equals entrywise the labelled typed-block combinations -/
+theorem end_to_end_sfs_accumulate : ∀ {D n : ℕ} [inst : NeZero n] {K : Type} [inst_1 : Field K] [inst_2 : LinearOrder K] [inst_3 : IsStrictOrderedRing K] {m : Model} {cinit : Fin D × Fin n → ℕ} {ts : ℕ → Fin D → ℚ} {mig : ℕ → Fin D → Fin D → ℚ} {r : ℕ → ℚ} {fuel : ℕ → ℕ} {G : ℕ → Graph}, 2 ≤ n → massBC cinit ≤ n → (∀ (e : ℕ), bfs (transit m (mkEpoch (ts e) (mig e) (r e))) (encBC cinit) (fuel e) = some (G e)) → ∀ (L : ExpLaw K) (n' : ℕ) (nv : Fin D → ℕ), ∑ d, nv d = massBC cinit → ∀ (x0 : Assembly.LabS encBC (G 0).visited n), cntF (Assembly.LabP.val x0) = Assembly.sampleBC nv → ∀ (eps : List EpochT) (dr : Reward) (sd tm : ℚ) (N : ℕ) (indices : List ℕ), List.length indices ≤ N → ∀ (sfsReward : ℕ → Reward) (k : ℤ) (rewards : Option (List Reward)) (times : List ℚ) (center permute : Bool), 1 ≤ k → (∀ (rs : List Reward), rewards = some rs → ↑(List.length rs) = k) → (∀ t ∈ times, 0 ≤ t) → EndToEnd.sfsAccumulateCallK Api.Variant.current (EndToEnd.codeCtx L G n' nv eps dr sd tm) N indices sfsReward k rewards times center permute = Except.ok (EndToEnd.padRowsK N (List.length times) (List.map (fun i ↦ List.map (fun t ↦ EndToEnd.labAccBC L m ts mig G n' x0 eps sfsReward (EndToEnd.resolveRewardsK dr k rewards) center permute i t) times) indices)) := @PG.EndToEnd.sfs_accumulate_call_vector_eq_labelled
+
+/-- CAPSTONE: SFSDistribution.cov ((X + X^T)/2 - mu mu^T from ordered uncentred cross moments) equals the same expression of labelled moments; symmetric (covSFSK_symm) -/
+theorem end_to_end_sfs_cov : ∀ {D n : ℕ} [inst : NeZero n] {K : Type} [inst_1 : Field K] [inst_2 : LinearOrder K] [inst_3 : IsStrictOrderedRing K] {m : Model} {cinit : Fin D × Fin n → ℕ} {ts : ℕ → Fin D → ℚ} {mig : ℕ → Fin D → Fin D → ℚ} {r : ℕ → ℚ} {fuel : ℕ → ℕ} {G : ℕ → Graph}, 2 ≤ n → massBC cinit ≤ n → (∀ (e : ℕ), bfs (transit m (mkEpoch (ts e) (mig e) (r e))) (encBC cinit) (fuel e) = some (G e)) → ∀ (L : ExpLaw K) (n' : ℕ) (nv : Fin D → ℕ), ∑ d, nv d = massBC cinit → ∀ (x0 : Assembly.LabS encBC (G 0).visited n), cntF (Assembly.LabP.val x0) = Assembly.sampleBC nv → ∀ (eps : List EpochT) (dr : Reward) (sd tm : ℚ) (N : ℕ) (indices : List ℕ) (sfsReward : ℕ → Reward), 0 ≤ tm → EndToEnd.sfsCovCallK Api.Variant.current (EndToEnd.codeCtx L G n' nv eps dr sd tm) N indices sfsReward = Except.ok (EndToEnd.covSFSK N indices (EndToEnd.labX L m ts mig G n' x0 eps sfsReward dr sd tm) (EndToEnd.padSFSK N (List.map (EndToEnd.labMu L m ts mig G n' x0 eps sfsReward dr sd tm) indices))) := @PG.EndToEnd.sfs_cov_eq_labelled
+
 end PG.C02
 
 #print axioms PG.C02.cov_routes_agree
@@ -106,3 +113,5 @@ end PG.C02
 #print axioms PG.C02.folded_reward
 #print axioms PG.C02.end_to_end_sfs
 #print axioms PG.C02.end_to_end_sfs_unfolded
+#print axioms PG.C02.end_to_end_sfs_accumulate
+#print axioms PG.C02.end_to_end_sfs_cov
